@@ -256,6 +256,21 @@ func checkC09(e *Engine, r *Report) {
 			r.MustPass("R1:bl-delete-updates-"+f.Name(), "R1 release pairing", "deleteBalloon updates balloons."+f.Name()+" on every path", delBln, nil, nil,
 				func(in ssa.Instruction) bool { st, ok := in.(*ssa.Store); return ok && fieldOfAddr(st.Addr) == f }, nil)
 		}
+		// what the free set becomes when a balloon is dropped (exactly free ∪ the balloon's CPUs — nothing is lost):
+		// the frame lemmas of the C02 check for deleteBalloon and the undo of a trial balloon, adopted here
+		{
+			sub := NewReport(e, "C02")
+			checkC02(e, sub)
+			n := 0
+			for _, o := range sub.Obls {
+				if strings.HasPrefix(o.Key, "R11:free-grows-by-balloon@") {
+					n++
+					cp := *o
+					r.add(&cp)
+				}
+			}
+			r.MinInstances("free-set frame lemmas (shared with C02)", n, 1)
+		}
 	}
 
 	// ------------------------------------------------------------------ RM
